@@ -45,7 +45,30 @@ HOLES = [
     ('\\d*', DIGITS, 0, None),
     ('[\u00e9a]+', ['\u00e9', 'a'], 1, None),
 ]
-UNSUPPORTED = ['(a|b)', '\\d+?', '[\\d]+', 'ab', 'a.b', '\\s+', '[a-]', '\\d{2}-\\d', '', '(?i)a', '[[a]', 'a|b', '\\d++', '.*?']
+# multi-atom regexes: (regex, None, 0, None, [(pool, lo, hi), ...])
+AB = list('ab')
+MULTI = [
+    ('\\d{4}-\\d{2}', [(DIGITS, 4, 4), (['-'], 1, 1), (DIGITS, 2, 2)]),
+    ('[a-z]+\\d*', [(list('abcxyz'), 1, None), (DIGITS, 0, None)]),
+    ('a\\d', [(['a'], 1, 1), (DIGITS, 1, 1)]),
+    ('x-\\w+', [(['x'], 1, 1), (['-'], 1, 1), (WORD, 1, None)]),
+    ('[^/]+/[^/]+', [(pool_except('/'), 1, None), (['/'], 1, 1), (pool_except('/'), 1, None)]),
+    ('\\d\\d', [(DIGITS, 1, 1), (DIGITS, 1, 1)]),
+    ('.*x', [(pool_except('\n'), 0, None), (['x'], 1, 1)]),
+    ('\\w+-\\w+', [(WORD, 1, None), (['-'], 1, 1), (WORD, 1, None)]),
+    ('[ab]*a', [(AB, 0, None), (['a'], 1, 1)]),
+    ('a?a?aa', [(['a'], 0, 1), (['a'], 0, 1), (['a'], 1, 1), (['a'], 1, 1)]),
+    ('\\d*\\d{2}', [(DIGITS, 0, None), (DIGITS, 2, 2)]),
+    ('.+/.+', [(pool_except('\n'), 1, None), (['/'], 1, 1), (pool_except('\n'), 1, None)]),
+    ('[a-z]+[a-z0-9]*', [(list('abcxyz'), 1, None), (list('abc012'), 0, None)]),
+    ('ab', [(['a'], 1, 1), (['b'], 1, 1)]),
+    ('a.b', [(['a'], 1, 1), (pool_except('\n'), 1, 1), (['b'], 1, 1)]),
+    ('[ab]{1,2}[ab]{2}', [(AB, 1, 2), (AB, 2, 2)]),
+    ('\\w*\\d', [(WORD, 0, None), (DIGITS, 1, 1)]),
+]
+HOLES += [(r, None, 0, None, parts) for r, parts in MULTI]
+UNSUPPORTED = ['(a|b)', '\\d+?', '[\\d]+', '\\s+', '[a-]', '', '(?i)a', '[[a]', 'a|b', '\\d++', '.*?', 'a**', 'a{2}{3}', '\\.', 'a{2}?',
+               'a{x}', '(a)', 'a$']
 
 
 def gen_struct(rng):
@@ -110,6 +133,8 @@ def render(elems, star):
 
 
 def sample_hole(rng, spec):
+    if len(spec) > 4:
+        return ''.join(sample_hole(rng, (None,) + part) for part in spec[4])
     _, pool, lo, hi = spec
     n = rng.randint(lo, min(hi, lo + 3) if hi is not None else lo + rng.choice([0, 0, 1, 2, 3]))
     return ''.join(rng.choice(pool) for _ in range(n))
